@@ -597,7 +597,6 @@ func loopAround(li linstr) (*loopInfo, int) {
 
 func (c *Ctx) plainTracer() *tracer { return &tracer{c: c} }
 
-
 // principalResult: result i of callee when exactly one of its returns yields something other than nil / a zero constant
 // / an unwritten local for it, and the result is not the error.
 func principalResult(callee *ssa.Function, i int) (ssa.Value, bool) {
